@@ -59,9 +59,8 @@ def run(S, n_imports, n_declared, n_defined):
 
     def check(pc, cond, what, extra):
         nonlocal n
-        s = z3.Solver(); s.set('timeout', 60000)
-        s.add(*pc); s.add(z3.Not(cond))
-        r = s.check(); n += 1
+        import zutil
+        r, s = zutil.check(list(pc) + [z3.Not(cond)], 60000); n += 1
         if r == z3.sat:
             m = s.model()
             w = {'what': what, 'name': str(m.eval(N, True)), 'imports': [str(m.eval(i, True)) for i in I], 'declared': [str(m.eval(d, True)) for d in D],
@@ -70,7 +69,10 @@ def run(S, n_imports, n_declared, n_defined):
             viol.append(w)
         elif r != z3.unsat:
             viol.append({'what': 'solver returned unknown for: ' + what})
+    import time
     for s2, ret in paths:
+        if tmir.DEADLINE[0] is not None and time.time() > tmir.DEADLINE[0]:
+            raise mir.Unsupported('time cap of the task reached while deciding the paths')
         if tc.model_of(s2) is None:
             continue
         kind = s2.heap.get(('field', 't', ki))
